@@ -1,4 +1,5 @@
 use super::swift_utils::parse_date_yymmdd;
+use crate::errors::ParseError;
 use crate::traits::SwiftField;
 use chrono::{Datelike, NaiveDate};
 use serde::{Deserialize, Serialize};
@@ -27,6 +28,13 @@ impl SwiftField for Field30 {
     where
         Self: Sized,
     {
+        // The parser works with byte offsets: refuse multi-byte characters up front
+        if !input.is_ascii() {
+            return Err(ParseError::InvalidFormat {
+                message: "Field 30 must contain only ASCII characters".to_string(),
+            });
+        }
+
         let execution_date = parse_date_yymmdd(input)?;
 
         Ok(Field30 { execution_date })
